@@ -40,7 +40,14 @@ func jsMasker(cur []byte) func(int) bool {
 }
 
 func runC03(c *Ctx) []Violation {
-	w := pickWorld(c, worldOpts{CorpusWeight: 2, GenWeight: 3, Encodings: true})
+	var w *world.World
+	if c.T.Chance("c03.numeric-filter", 1, 12) {
+		// own scenario family of an open known finding: a target filter that compares with a number
+		w = world.Generate(c.T, world.GenOpts{NumericFilter: true, Encodings: true})
+		c.Count("world.family.numeric-filter", 1)
+	} else {
+		w = pickWorld(c, worldOpts{CorpusWeight: 2, GenWeight: 3, Encodings: true})
+	}
 	env := baseEnv(c)
 	ww := w.Clone()
 	corpus, _ := world.Corpus()
@@ -138,8 +145,15 @@ func runC03(c *Ctx) []Violation {
 	}
 	for i, e := range tr.Entries {
 		if e.Class == run.ClsPanic {
-			return mk("C03.panic-read", w.Format+": Read panics: "+clipS(e.Err, 160), "",
+			vs := mk("C03.panic-read", w.Format+": Read panics: "+clipS(e.Err, 160), "",
 				fmt.Sprintf("Read #%d panicked: %s", i+1, e.Err), panicSite(e.Stack))
+			// known finding: the target (FINAL_OUTPUT) xpath is evaluated by the readers through
+			// idr.MatchAny, which does not guard against the xpath engine's evaluation-time panics
+			if strings.Contains(e.Stack, "omniparser/idr.MatchAny(") && strings.Contains(e.Stack, "antchfx/xpath") && c.FindingOpen("target-xpath-eval-panic") {
+				vs[0].Finding = "target-xpath-eval-panic"
+				vs[0].What = "an evaluation-time error of the xpath engine in the FINAL_OUTPUT target filter (idr.MatchAny in a reader) panics out of Read: " + clipS(e.Err, 100)
+			}
+			return vs
 		}
 	}
 	if tr.HitReadLimit {
